@@ -21,6 +21,7 @@ pub mod cmd_instr;
 pub mod cmd_joypad;
 pub mod cmd_timer;
 pub mod cmd_lcd;
+pub mod cmd_dma;
 
 fn main() {
   let args: Vec<String> = std::env::args().collect();
@@ -32,6 +33,7 @@ fn main() {
     "timer-trace" => cmd_timer::trace(&args[2..]),
     "timer-partitions" => cmd_timer::partitions(&args[2..]),
     "lcd-trace" => cmd_lcd::trace(&args[2..]),
+    "dma-trace" => cmd_dma::trace(&args[2..]),
     "version" => println!("gbv jit={}", cfg!(feature = "jit")),
     _ => { eprintln!("usage: gbv <command> ..."); std::process::exit(2); }
   }
